@@ -284,7 +284,9 @@ Fixpoint parse_alt (fuel : nat) (s : list N) (ingroup : bool) : pr :=
                   if isrep && c1 then PUnsup                (* a counted repetition of a counted repetition *)
                   else
                   match r2 with
-                  | 63 :: _ => PUnsup                       (* lazy quantifier *)
+                  | 63 :: r3 =>                             (* lazy quantifier: the same language; whether a match exists does not depend on greed *)
+                      if starts_quant r3 then PUnsup        (* a*?* ...: not judged *)
+                      else parse_cat f2 r3 (RCat acc (apply_quant q a)) (counted || c1 || isrep)
                   | 42 :: _ | 43 :: _ => PBad               (* ** *)
                   | 123 :: _ => match parse_quant r2 with
                                 | (QRep _ _, _) | (QBad, _) => PBad    (* a{2}{3} *)
